@@ -357,13 +357,13 @@ func Run(ctx *common.Ctx) int {
 		"rule": "every listed periodic byte stream (constant bytes: 16 in quick, all 256 in thorough; periods 2..64 (quick 2,3,64) x {counter, bit-balanced, fixed filler}; a lone 0x01 in zeros at every position for p in {2,63,64}) x the six multi-sample workflows with the REAL registry runners (memoised per (item, sample hash): a periodic stream has at most p/gcd(p,n) distinct samples); " +
 			"four of the streams ending after 0, 1, N/2, 4N/5, N-1, N, N+1, 3N, sN-1 bytes through all six workflows; a rejected stream judged while a second goroutine judges a healthy stream with the same detection (seq|fast x seq|fast, stub runners, every interleaving with <= 1 deviation under four default policies); " +
 			"all-zero / all-one sources x every single-shot length; oracle: verdict false with a non-nil error, no panic; distinct = number of distinct streams",
-		"samples":                  samples,
-		"streams":                  len(streams),
-		"real_runner_evaluations":  computed,
-		"memo_hits":                hits,
-		"rejections_by_named_item": rejectedBy.Map(),
+		"samples":                   samples,
+		"streams":                   len(streams),
+		"real_runner_evaluations":   computed,
+		"memo_hits":                 hits,
+		"rejections_by_named_item":  rejectedBy.Map(),
 		"concurrent_pair_schedules": pairExecs,
-		"exhaustive":               !capped,
+		"exhaustive":                !capped,
 	}
 	return ctx.Finish("exploration", cov, []string{"the parallel variants run free-running on a locked source: the property quantifies inputs only (schedules are C08's subject)",
 		"period content beyond the listed kinds is not enumerated (256^p contents)"})
